@@ -79,7 +79,7 @@ def val_engine(m):
 def c07(m, tier):
     eng = val_engine(m)
     return [rules_val.rule_val(m, eng), rules_val.rule_sanitizer(m, eng), rules_val.rule_throw_before_write(m),
-            rules_val.rule_getlabel(m), rules_decl.rule_throw(m)]
+            rules_val.rule_getlabel(m), rules_decl.rule_throw(m), rules_struct.rule_label_writes(m)]
 
 
 def _pair(m, classes, rules, minimum):
@@ -100,40 +100,42 @@ def only_functions(res, prefixes):
 def c01(m, tier):
     return _pair(m, [LDG], ['F-PAIR.N', 'F-PAIR.S'], {'F-PAIR.N': 30, 'F-PAIR.S': 5}) + [
         rules_struct.rule_insertion_guard(m), rules_struct.rule_hasedge(m), rules_struct.rule_full_loops(m),
-        rules_struct.rule_observers(m), rules_decl.rule_encapsulation(m)]
+        rules_struct.rule_observers(m), rules_decl.rule_encapsulation(m), rules_struct.rule_bulk_complete(m)]
 
 
 def c02(m, tier):
     return _pair(m, [LUG], ['F-PAIR.M', 'F-PAIR.N', 'F-KEY'], {'F-PAIR.M': 20, 'F-PAIR.N': 20, 'F-KEY': 15}) + [
         rules_struct.rule_ordered_edge(m), rules_struct.rule_selfloop_convention(m), rules_struct.rule_insertion_guard(m),
         rules_struct.rule_hasedge(m), rules_struct.rule_full_loops(m), rules_struct.rule_observers(m),
-        rules_decl.rule_encapsulation(m)]
+        rules_decl.rule_encapsulation(m), rules_struct.rule_bulk_complete(m)]
 
 
 def c03(m, tier):
     return _pair(m, None, ['F-PAIR.L', 'F-KEY'], {'F-PAIR.L': 60, 'F-KEY': 30}) + [
         rules_struct.rule_label_writes(m), rules_val.rule_getlabel(m), rules_struct.rule_hasedge(m),
-        rules_struct.rule_insertion_guard(m)]
+        rules_struct.rule_insertion_guard(m), rules_struct.rule_label_subscripts(m), rules_struct.rule_bulk_complete(m)]
 
 
 def c04(m, tier):
     return _pair(m, [DMG, UMG, LDG, LUG], ['F-PAIR.N', 'F-PAIR.L', 'F-PAIR.T', 'F-PAIR.M', 'F-KEY'],
                  {'F-PAIR.N': 40, 'F-PAIR.L': 30, 'F-PAIR.T': 20, 'F-PAIR.M': 20, 'F-KEY': 20}) + [
         rules_struct.rule_positive_multiplicity(m), rules_struct.rule_insertion_guard(m),
-        rules_struct.rule_observers(m), rules_struct.rule_selfloop_convention(m), rules_struct.rule_label_writes(m)]
+        rules_struct.rule_observers(m), rules_struct.rule_selfloop_convention(m), rules_struct.rule_label_writes(m),
+        rules_struct.rule_bulk_complete(m), rules_struct.rule_setters(m), rules_struct.rule_label_subscripts(m)]
 
 
 def c05(m, tier):
     return _pair(m, [DWG, UWG, LDG, LUG], ['F-PAIR.T', 'F-PAIR.L', 'F-PAIR.N', 'F-PAIR.M', 'F-KEY'],
                  {'F-PAIR.T': 12, 'F-PAIR.L': 30, 'F-PAIR.N': 40, 'F-KEY': 15}) + [
         rules_struct.rule_insertion_guard(m), rules_struct.rule_observers(m), rules_struct.rule_label_writes(m),
-        rules_decl.rule_encapsulation(m), rules_val.rule_getlabel(m)]
+        rules_decl.rule_encapsulation(m), rules_val.rule_getlabel(m), rules_struct.rule_bulk_complete(m),
+        rules_struct.rule_setters(m), rules_struct.rule_label_subscripts(m)]
 
 
 def c06(m, tier):
     return [rules_struct.rule_equality(m)] + _pair(
         m, None, ['F-PAIR.L', 'F-PAIR.N', 'F-PAIR.S', 'F-KEY'], {'F-PAIR.L': 60, 'F-PAIR.N': 80, 'F-KEY': 30}) + [
-        rules_decl.rule_valsem(m), rules_struct.rule_label_writes(m)]
+        rules_decl.rule_valsem(m), rules_struct.rule_label_writes(m), rules_struct.rule_label_subscripts(m)]
 
 
 def c16(m, tier):
